@@ -1,6 +1,7 @@
 package props
 
 import (
+	"net/http"
 	"bytes"
 	"encoding/base64"
 	"encoding/xml"
@@ -219,7 +220,36 @@ func c08IdPRun(c *core.Ctx, layout []c08KD, runLen int) {
 		initiated := i%3 == 2
 		desc := fmt.Sprintf("layout=%s response#%d initiated=%v", lname, i, initiated)
 		c.Journal("C08 " + desc)
+		stepwise := !initiated && c.Rng.Intn(4) == 0
+		if stepwise {
+			desc += " stepwise-api-with-failed-first-attempt"
+		}
 		p, pv, frame, _ := core.Guard(func() {
+			if stepwise {
+				// an application driving the request object itself: the first attempt to build the assertion element fails
+				// (the random source is down for a moment), the application tries again on the same request object
+				f := string(saml.TransientNameIDFormat)
+				ar := saml.AuthnRequest{ID: "id-c08", Version: "2.0", IssueInstant: fx.Now(), Destination: so.IDPSSO, Issuer: &saml.Issuer{Value: so.SPMeta}, NameIDPolicy: &saml.NameIDPolicy{Format: &f}}
+				req, err := saml.NewIdpAuthnRequest(w.IDP, so.SSORequestPOST(so.IDPSSO, so.Bytes(ar.Element()), "relay"))
+				if err != nil || req.Validate() != nil {
+					rec.WriteHeader(http.StatusBadRequest)
+					return
+				}
+				if err := (saml.DefaultAssertionMaker{}).MakeAssertion(req, sess); err != nil {
+					rec.WriteHeader(http.StatusInternalServerError)
+					return
+				}
+				rnd.Fail = true
+				first := req.MakeAssertionEl()
+				rnd.Fail = false
+				if first != nil {
+					c.Count("stepwise_first_attempt_failed")
+				}
+				if err := req.WriteResponse(rec); err != nil && rec.Body.Len() == 0 {
+					rec.WriteHeader(http.StatusInternalServerError)
+				}
+				return
+			}
 			if initiated {
 				w.IDP.ServeIDPInitiated(rec, httptest.NewRequest("GET", "https://idp.example.com/login/x", nil), so.SPMeta, "relay")
 			} else {
@@ -503,13 +533,16 @@ func c08Differential(c *core.Ctx, mine func() bool) {
 			el, _ := so.Parse(enc)
 			cv := el.FindElement("//EncryptedData/CipherData/CipherValue")
 			b, _ := base64.StdEncoding.DecodeString(strings.TrimSpace(cv.Text()))
-			switch r.Intn(3) {
+			tamper := r.Intn(4)
+			switch tamper {
 			case 0:
 				b[r.Intn(len(b))] ^= 0x40
 			case 1:
 				b = b[:r.Intn(len(b))]
 			case 2:
 				b = append(b, 0)
+			case 3: // 1..15 stray bytes after a valid cipher value: not whole blocks any more
+				b = append(b, bytes.Repeat([]byte{7}, 1+r.Intn(15))...)
 			}
 			cv.SetText(base64.StdEncoding.EncodeToString(b))
 			if respSigned { // keep the response signature valid over the tampered ciphertext: only decryption stands in the way
@@ -526,7 +559,9 @@ func c08Differential(c *core.Ctx, mine func() bool) {
 				continue
 			}
 			c.Eval()
-			if e3 == nil && a3 != nil && !(alg != refenc.AES128GCM && so.Projection(a3) == so.Projection(a2) && e2 == nil) {
+			// a flipped bit may land in the filler bytes of the CBC padding, which carry no information: accepted with the very
+			// same content is then no failure; a cipher value that was cut or extended is malformed whatever it decrypts to
+			if e3 == nil && a3 != nil && !(tamper == 0 && alg != refenc.AES128GCM && so.Projection(a3) == so.Projection(a2) && e2 == nil) {
 				c.Violation("C08/tampered-ciphertext-accepted", "response with tampered ciphertext accepted ("+desc+")", map[string]any{"case": desc, "document": string(raw)})
 			} else if _, ok := e3.(*saml.InvalidResponseError); e3 != nil && !ok {
 				c.Violation("C08/tampered-ciphertext-error-type", fmt.Sprintf("%T", e3), nil)
